@@ -79,7 +79,9 @@ deriving DecidableEq, Repr
 structure Ctx where
   /-- stored values, aligned with the parameter list -/
   vals : List Int
-  /-- a frame is in progress (`streamStage != zcss_init` / `zdss_init`) -/
+  /-- a frame is in progress: input has been accepted (or output produced) for a frame that is neither complete nor dropped by a session
+  reset.  In the code: `streamStage != zcss_init` / `zdss_init`, or - compression side, `ZSTD_c_stableInBuffer` - input reported as consumed
+  whose compression is deferred (`stableIn_notConsumed != 0`) -/
   started : Bool
   /-- dictionaries / prefix referenced -/
   hasDict : Bool
@@ -159,6 +161,15 @@ def reset (ps : List PInfo) (s : Ctx) (r : Reset) : Except Err Ctx :=
 
 def loadDict (s : Ctx) : Except Err Ctx :=
   if s.started then .error .stage else .ok { s with hasDict := true }
+
+/-- a WHOLE frame through an entry point that begins and completes it in one call (`ZSTD_compressSequences`, `ZSTD_compress2`,
+`ZSTD_compressStream2(ZSTD_e_end)` returning 0): the context is back in the init stage, parameters and dictionaries untouched -/
+def wholeFrame (s : Ctx) : Ctx := endFrame (startFrame s)
+
+/-- the entry points that are legal in the init stage only and store nothing the parameter read-back shows
+(`ZSTD_CCtx_setPledgedSrcSize`, `ZSTD_CCtx_refPrefix`, `ZSTD_CCtx_refCDict`, `ZSTD_CCtx_refThreadPool`) -/
+def initStageOnly (s : Ctx) : Except Err Ctx :=
+  if s.started then .error .stage else .ok s
 
 /-! ### ZSTD_checkCParams on the generated level table -/
 
